@@ -884,30 +884,996 @@ Proof.
       apply part_text_lacks_dot. exact (proj1 (Forall_forall _ _) Hf p Hp).
 Qed.
 
+(* ================================================================== *)
+(* IPv6 printers against the reader, for ARBITRARY word values:        *)
+(* both printers are ':'.join(parts); the reader is followed part by   *)
+(* part; the eight words are then swept symbolically over the 256      *)
+(* zero / non-zero masks (x ffff in word 5 for glibc's dotted tail).   *)
+
 (* ------------------------------------------------------------------ *)
-(* IPv6 printers against the reader: finite sweep                      *)
+(* "%x" of a 16-bit word and its reader                                *)
 
-Definition nlist_eqb (a b : list N) : bool := if list_eq_dec N.eq_dec a b then true else false.
+Lemma cN_ascii n : n < 256 -> cN (ascii_of_N n) = n.
+Proof. intros H. unfold cN. apply N_ascii_embedding. exact H. Qed.
 
-Definition v6_roundtrip_check (ws : list N) : bool :=
-  match parse_v6 (print_v6 true ws), parse_v6 (print_v6 false ws) with
-  | Some a, Some b => nlist_eqb a ws && nlist_eqb b ws
-  | _, _ => false
+Lemma hchar_facts d : d < 16 -> is_hex (hchar d) = true /\ hex_digit_val (hchar d) = d.
+Proof.
+  intros H. unfold hchar. destruct (d <? 10) eqn:E.
+  - assert (Hd : is_digit (ascii_of_N (48 + d)) = true).
+    { unfold is_digit, in_range. rewrite cN_ascii by lia. lia. }
+    unfold is_hex, hex_digit_val. rewrite Hd. split; [reflexivity|]. rewrite cN_ascii by lia. lia.
+  - assert (Hd : is_digit (ascii_of_N (87 + d)) = false).
+    { unfold is_digit, in_range. rewrite cN_ascii by lia. lia. }
+    assert (Hu : in_range 65 70 (ascii_of_N (87 + d)) = false).
+    { unfold in_range. rewrite cN_ascii by lia. lia. }
+    assert (Hl : in_range 97 102 (ascii_of_N (87 + d)) = true).
+    { unfold in_range. rewrite cN_ascii by lia. lia. }
+    unfold is_hex, hex_digit_val. rewrite Hd, Hu, Hl. split; [reflexivity|]. rewrite cN_ascii by lia. lia.
+Qed.
+
+Lemma hex4_facts n : n < 65536 ->
+  forallb is_hex (hex4 n) = true /\ nonempty (hex4 n) = true /\
+  (lenN (hex4 n) <=? 4) = true /\ hex_val (hex4 n) = n.
+Proof.
+  intros H. unfold hex4.
+  destruct (n <? 16) eqn:E1; [|destruct (n <? 256) eqn:E2; [|destruct (n <? 4096) eqn:E3]].
+  - destruct (hchar_facts n ltac:(lia)) as [A B].
+    cbn [forallb nonempty]. rewrite A. unfold hex_val. cbn [horner]. rewrite B.
+    repeat split; lia.
+  - destruct (hchar_facts (n / 16) ltac:(lia)) as [A1 B1].
+    destruct (hchar_facts (n mod 16) ltac:(lia)) as [A2 B2].
+    cbn [forallb nonempty]. rewrite A1, A2. unfold hex_val. cbn [horner]. rewrite B1, B2.
+    repeat split; lia.
+  - destruct (hchar_facts (n / 256) ltac:(lia)) as [A1 B1].
+    destruct (hchar_facts ((n / 16) mod 16) ltac:(lia)) as [A2 B2].
+    destruct (hchar_facts (n mod 16) ltac:(lia)) as [A3 B3].
+    cbn [forallb nonempty]. rewrite A1, A2, A3. unfold hex_val. cbn [horner]. rewrite B1, B2, B3.
+    repeat split; lia.
+  - destruct (hchar_facts (n / 4096) ltac:(lia)) as [A1 B1].
+    destruct (hchar_facts ((n / 256) mod 16) ltac:(lia)) as [A2 B2].
+    destruct (hchar_facts ((n / 16) mod 16) ltac:(lia)) as [A3 B3].
+    destruct (hchar_facts (n mod 16) ltac:(lia)) as [A4 B4].
+    cbn [forallb nonempty]. rewrite A1, A2, A3, A4. unfold hex_val. cbn [horner]. rewrite B1, B2, B3, B4.
+    repeat split; lia.
+Qed.
+
+Lemma hextet_hex4 n : n < 65536 -> hextet (hex4 n) = HVal n.
+Proof.
+  intros H. destruct (hex4_facts n H) as (A & B & C & D).
+  unfold hextet. destruct (hex4 n) as [|c t] eqn:E; [discriminate|].
+  rewrite A, C, D. reflexivity.
+Qed.
+
+Lemma hex4_lacks c n : is_hex c = false -> n < 65536 -> lacks c (hex4 n) = true.
+Proof.
+  intros Hc H. destruct (hex4_facts n H) as (A & _). exact (class_lacks is_hex c _ Hc A).
+Qed.
+
+(* ------------------------------------------------------------------ *)
+(* the dotted quad as the tail of an IPv6 text                         *)
+
+Lemma strict_octet_digits p v : strict_octet p = Some v -> forallb is_digit p = true.
+Proof.
+  unfold strict_octet. destruct (nonempty p); [|discriminate].
+  destruct (forallb is_digit p); [reflexivity|discriminate].
+Qed.
+
+Lemma dec3_digits n : n < 256 -> forallb is_digit (dec3 n) = true.
+Proof. intros H. destruct (octet_facts n H) as (_ & S & _). exact (strict_octet_digits _ _ S). Qed.
+
+Lemma lacks_app c a b : lacks c (a ++ b) = lacks c a && lacks c b.
+Proof. unfold lacks. apply forallb_app. Qed.
+
+Lemma lacks_cons c x a : lacks c (x :: a) = negb (Ascii.eqb x c) && lacks c a.
+Proof. reflexivity. Qed.
+
+Lemma print_v4_lacks_colon v : v < 4294967296 -> lacks ":" (print_v4 v) = true.
+Proof.
+  intros H. destruct (v4_octet_bounds v H) as (Ha & Hb & Hc & Hd & _).
+  unfold print_v4. rewrite !lacks_app, !lacks_cons, !lacks_app, !lacks_cons, !lacks_app, !lacks_cons.
+  rewrite (class_lacks is_digit ":" _ eq_refl (dec3_digits _ Ha)),
+          (class_lacks is_digit ":" _ eq_refl (dec3_digits _ Hb)),
+          (class_lacks is_digit ":" _ eq_refl (dec3_digits _ Hc)),
+          (class_lacks is_digit ":" _ eq_refl (dec3_digits _ Hd)). reflexivity.
+Qed.
+
+Lemma print_v4_has_dot v : mem_char "." (print_v4 v) = true.
+Proof.
+  unfold print_v4. rewrite mem_char_app. cbn [mem_char existsb].
+  rewrite Ascii.eqb_refl. cbn [orb]. apply orb_true_r.
+Qed.
+
+(* ------------------------------------------------------------------ *)
+(* the printers as ':'.join(parts)                                     *)
+
+Inductive vpart :=
+| VG (g : N)              (* a word, printed %x *)
+| VE                      (* '' : the artefact of '::' *)
+| V4 (hi lo : N).         (* dotted quad standing for the last two words *)
+
+Definition vrender (p : vpart) : bytes :=
+  match p with
+  | VG g => hex4 g
+  | VE => []
+  | V4 hi lo => print_v4 (hi * 65536 + lo)
   end.
 
-Lemma v6_sweep : forallb v6_roundtrip_check (word_lists 8) = true.
-Proof. vm_compute. reflexivity. Qed.
+Definition vside (l : list N) : list vpart := match l with [] => [VE] | _ => map VG l end.
 
-Lemma v6_print_parse ws : In ws (word_lists 8) ->
+Definition shape (embed : bool) (ws : list N) : list vpart :=
+  match best_run ws with
+  | None => map VG ws
+  | Some (b, l) =>
+    if embed && Nat.eqb b 0 && (Nat.eqb l 6 || (Nat.eqb l 5 && (nth 5 ws 0 =? 65535)))
+    then VE :: VE :: (if Nat.eqb l 5 then [VG 65535] else []) ++ [V4 (nth 6 ws 0) (nth 7 ws 0)]
+    else vside (firstn b ws) ++ VE :: vside (skipn (b + l) ws)
+  end.
+
+Lemma join_app sep (a b : list bytes) : a <> [] -> b <> [] ->
+  join sep (a ++ b) = join sep a ++ sep ++ join sep b.
+Proof.
+  intros Ha Hb. induction a as [|x a IH]; [congruence|].
+  destruct a as [|y a].
+  - cbn [app]. destruct b as [|z b]; [congruence|]. reflexivity.
+  - change ((x :: y :: a) ++ b) with (x :: (y :: a) ++ b).
+    change (join sep (x :: y :: a)) with (x ++ sep ++ join sep (y :: a)).
+    assert (E : join sep (x :: (y :: a) ++ b) = x ++ sep ++ join sep ((y :: a) ++ b)) by reflexivity.
+    rewrite E. rewrite IH by discriminate. rewrite <- !app_assoc. reflexivity.
+Qed.
+
+Lemma vside_nonnil l : map vrender (vside l) <> [].
+Proof. destruct l; discriminate. Qed.
+
+Lemma join_vside l : join COLON (map vrender (vside l)) = join COLON (map hex4 l).
+Proof.
+  destruct l as [|x l]; [reflexivity|]. unfold vside. rewrite map_map. reflexivity.
+Qed.
+
+Lemma print_v6_shape e ws : print_v6 e ws = join COLON (map vrender (shape e ws)).
+Proof.
+  unfold print_v6, shape. destruct (best_run ws) as [[b l]|].
+  - destruct (e && Nat.eqb b 0 && (Nat.eqb l 6 || Nat.eqb l 5 && (nth 5 ws 0 =? 65535))).
+    + destruct (Nat.eqb l 5); reflexivity.
+    + rewrite map_app. cbn [map vrender].
+      rewrite join_app; [|apply vside_nonnil|discriminate].
+      rewrite join_vside. f_equal. rewrite <- (join_vside (skipn (b + l) ws)).
+      pose proof (vside_nonnil (skipn (b + l) ws)) as Hn.
+      destruct (map vrender (vside (skipn (b + l) ws))); [congruence|reflexivity].
+  - rewrite map_map. reflexivity.
+Qed.
+
+(* ------------------------------------------------------------------ *)
+(* reading ':'.join(parts) back                                        *)
+
+Definition vgood (p : vpart) : Prop :=
+  match p with
+  | VG g => g < 65536
+  | VE => True
+  | V4 hi lo => hi < 65536 /\ lo < 65536
+  end.
+
+Definition is_v4 (p : vpart) : bool := match p with V4 _ _ => true | _ => false end.
+
+Definition hx_of (p : vpart) : hx :=
+  match p with VG g => HVal g | VE => HEmpty | V4 _ _ => HBad end.
+
+Definition parse_abs (ps : list vpart) : option (list N) :=
+  if Nat.ltb (length ps) 3 then None
+  else match last ps VE with
+       | V4 hi lo => assemble_v6 (map hx_of (removelast ps) ++ [HVal hi; HVal lo])
+       | _ => assemble_v6 (map hx_of ps)
+       end.
+
+Lemma split_join c (ts : list bytes) :
+  ts <> [] -> Forall (fun t => lacks c t = true) ts -> split_on c (join [c] ts) = ts.
+Proof.
+  induction ts as [|a ts IH]; intros Hne Hf; [congruence|].
+  inversion Hf as [|? ? Ha Hts]; subst.
+  destruct ts as [|b ts].
+  - cbn [join]. exact (split_on_lacks c a Ha).
+  - change (join [c] (a :: b :: ts)) with (a ++ [c] ++ join [c] (b :: ts)).
+    cbn [app]. rewrite (split_on_app_sep c a _ Ha).
+    rewrite IH; [reflexivity|discriminate|exact Hts].
+Qed.
+
+Lemma vrender_lacks_colon p : vgood p -> lacks ":" (vrender p) = true.
+Proof.
+  destruct p as [g| |hi lo]; cbn [vgood vrender]; intros H.
+  - exact (hex4_lacks ":" g eq_refl H).
+  - reflexivity.
+  - apply print_v4_lacks_colon. lia.
+Qed.
+
+Lemma vrender_dot p : vgood p -> mem_char "." (vrender p) = is_v4 p.
+Proof.
+  destruct p as [g| |hi lo]; cbn [vgood vrender is_v4]; intros H.
+  - exact (lacks_mem "." _ (hex4_lacks "." g eq_refl H)).
+  - reflexivity.
+  - apply print_v4_has_dot.
+Qed.
+
+Lemma hextet_vrender p : vgood p -> is_v4 p = false -> hextet (vrender p) = hx_of p.
+Proof.
+  destruct p as [g| |hi lo]; cbn [vgood vrender is_v4 hx_of]; intros H Hv.
+  - exact (hextet_hex4 g H).
+  - reflexivity.
+  - discriminate.
+Qed.
+
+Lemma hextet_vrender_all ps :
+  Forall vgood ps -> Forall (fun p => is_v4 p = false) ps ->
+  map hextet (map vrender ps) = map hx_of ps.
+Proof.
+  induction ps as [|p ps IH]; intros Hg Hv; [reflexivity|].
+  inversion Hg as [|? ? Hp Hps]; subst. inversion Hv as [|? ? Vp Vps]; subst.
+  cbn [map]. rewrite (hextet_vrender p Hp Vp), (IH Hps Vps). reflexivity.
+Qed.
+
+Lemma last_map_vrender ps : last (map vrender ps) [] = vrender (last ps VE).
+Proof.
+  induction ps as [|p ps IH]; [reflexivity|].
+  destruct ps as [|q ps]; [reflexivity|].
+  change (last (map vrender (p :: q :: ps)) []) with (last (map vrender (q :: ps)) []).
+  change (last (p :: q :: ps) VE) with (last (q :: ps) VE). exact IH.
+Qed.
+
+Lemma removelast_map {A B} (f : A -> B) l : removelast (map f l) = map f (removelast l).
+Proof.
+  induction l as [|a l IH]; [reflexivity|].
+  destruct l as [|b l]; [reflexivity|].
+  change (removelast (map f (a :: b :: l))) with (f a :: removelast (map f (b :: l))).
+  change (removelast (a :: b :: l)) with (a :: removelast (b :: l)).
+  cbn [map]. rewrite <- IH. reflexivity.
+Qed.
+
+Lemma Forall_last_vgood ps : Forall vgood ps -> vgood (last ps VE).
+Proof.
+  induction 1 as [|p ps Hp _ IH]; [exact I|].
+  destruct ps as [|q ps]; [exact Hp|exact IH].
+Qed.
+
+Lemma Forall_removelast {A} (P : A -> Prop) l : Forall P l -> Forall P (removelast l).
+Proof.
+  induction 1 as [|a l Ha _ IH]; [constructor|].
+  destruct l as [|b l]; [constructor|].
+  change (removelast (a :: b :: l)) with (a :: removelast (b :: l)). constructor; assumption.
+Qed.
+
+Lemma Forall_unlast {A} (P : A -> Prop) (d : A) l :
+  Forall P (removelast l) -> P (last l d) -> Forall P l.
+Proof.
+  induction l as [|a l IH]; intros H1 H2; [constructor|].
+  destruct l as [|b l]; [constructor; [exact H2|constructor]|].
+  change (removelast (a :: b :: l)) with (a :: removelast (b :: l)) in H1.
+  inversion H1; subst. constructor; [assumption|]. apply IH; assumption.
+Qed.
+
+Lemma parse_v6_parts ps :
+  ps <> [] -> Forall vgood ps -> Forall (fun p => is_v4 p = false) (removelast ps) ->
+  parse_v6 (join COLON (map vrender ps)) = parse_abs ps.
+Proof.
+  intros Hne Hg Hv. unfold parse_v6, parse_abs, COLON.
+  rewrite split_join.
+  2:{ destruct ps; [congruence|discriminate]. }
+  2:{ apply Forall_map. eapply Forall_impl; [|exact Hg]. exact vrender_lacks_colon. }
+  rewrite map_length. destruct (Nat.ltb (length ps) 3); [reflexivity|].
+  rewrite last_map_vrender.
+  pose proof (Forall_last_vgood ps Hg) as Hl.
+  rewrite (vrender_dot _ Hl).
+  destruct (last ps VE) as [g| |hi lo] eqn:El; cbn [is_v4].
+  - rewrite hextet_vrender_all; [reflexivity|exact Hg|].
+    apply (Forall_unlast _ VE); [exact Hv|rewrite El; reflexivity].
+  - rewrite hextet_vrender_all; [reflexivity|exact Hg|].
+    apply (Forall_unlast _ VE); [exact Hv|rewrite El; reflexivity].
+  - cbn [vgood] in Hl. destruct Hl as [Hhi Hlo]. cbn [vrender].
+    rewrite parse_v4_strict_print_v4 by lia.
+    rewrite removelast_map.
+    rewrite hextet_vrender_all; [|apply Forall_removelast; exact Hg|exact Hv].
+    replace ((hi * 65536 + lo) / 65536) with hi by lia.
+    replace ((hi * 65536 + lo) mod 65536) with lo by lia. reflexivity.
+Qed.
+
+(* ------------------------------------------------------------------ *)
+(* the shape of eight words, symbolically: every zero / non-zero mask  *)
+
+Definition shape_ok (e : bool) (ws : list N) : Prop :=
+  parse_abs (shape e ws) = Some ws /\
+  forallb (fun p => negb (is_v4 p)) (removelast (shape e ws)) = true.
+
+Ltac split0 g := destruct g as [|?].
+
+Lemma shape_ok8 e g0 g1 g2 g3 g4 g5 g6 g7 : shape_ok e [g0; g1; g2; g3; g4; g5; g6; g7].
+Proof.
+  unfold shape_ok, shape. cbn [nth].
+  destruct e; cbn [andb].
+  - destruct (g5 =? 65535) eqn:E5; [apply N.eqb_eq in E5; subst g5|].
+    + split0 g0; split0 g1; split0 g2; split0 g3; split0 g4; split0 g6; split0 g7;
+        vm_compute; split; reflexivity.
+    + split0 g0; split0 g1; split0 g2; split0 g3; split0 g4; split0 g5; split0 g6; split0 g7;
+        vm_compute; split; reflexivity.
+  - split0 g0; split0 g1; split0 g2; split0 g3; split0 g4; split0 g5; split0 g6; split0 g7;
+      vm_compute; split; reflexivity.
+Qed.
+
+Lemma list8 {A} (l : list A) : length l = 8%nat ->
+  exists a b c d e f g h, l = [a; b; c; d; e; f; g; h].
+Proof.
+  intros H. destruct l as [|a [|b [|c [|d [|e [|f [|g [|h [|]]]]]]]]]; try discriminate.
+  do 8 eexists. reflexivity.
+Qed.
+
+Lemma Forall_firstn_ {A} (P : A -> Prop) n l : Forall P l -> Forall P (firstn n l).
+Proof.
+  revert l. induction n as [|n IH]; intros l H; [constructor|].
+  destruct l; [constructor|]. inversion H; subst. cbn [firstn]. constructor; [assumption|apply IH; assumption].
+Qed.
+
+Lemma Forall_skipn_ {A} (P : A -> Prop) n l : Forall P l -> Forall P (skipn n l).
+Proof.
+  revert l. induction n as [|n IH]; intros l H; [exact H|].
+  destruct l; [constructor|]. inversion H; subst. cbn [skipn]. apply IH. assumption.
+Qed.
+
+Lemma nth_word_lt ws k : Forall (fun w => w < 65536) ws -> nth k ws 0 < 65536.
+Proof.
+  intros H. revert k. induction H as [|g gs Hg _ IH]; intros k; destruct k; cbn [nth]; try lia; apply IH.
+Qed.
+
+Lemma vside_good l : Forall (fun w => w < 65536) l -> Forall vgood (vside l).
+Proof.
+  intros H. destruct l as [|x l]; [constructor; [exact I|constructor]|].
+  unfold vside. apply Forall_map. exact H.
+Qed.
+
+Lemma shape_good e ws : Forall (fun w => w < 65536) ws -> Forall vgood (shape e ws).
+Proof.
+  intros H. unfold shape. destruct (best_run ws) as [[b l]|].
+  - destruct (e && Nat.eqb b 0 && (Nat.eqb l 6 || Nat.eqb l 5 && (nth 5 ws 0 =? 65535))).
+    + constructor; [exact I|]. constructor; [exact I|]. apply Forall_app. split.
+      * destruct (Nat.eqb l 5); [|constructor]. constructor; [|constructor]. cbn [vgood]. lia.
+      * constructor; [|constructor]. cbn [vgood]. split; apply nth_word_lt; exact H.
+    + apply Forall_app. split; [apply vside_good, Forall_firstn_, H|].
+      constructor; [exact I|]. apply vside_good, Forall_skipn_, H.
+  - apply Forall_map. exact H.
+Qed.
+
+Lemma shape_nonnil e ws : ws <> [] -> shape e ws <> [].
+Proof.
+  intros Hn. unfold shape. destruct (best_run ws) as [[b l]|].
+  - destruct (e && Nat.eqb b 0 && (Nat.eqb l 6 || Nat.eqb l 5 && (nth 5 ws 0 =? 65535))); [discriminate|].
+    intros E. apply app_eq_nil in E. destruct E as [_ E]. discriminate.
+  - destruct ws; [congruence|discriminate].
+Qed.
+
+Lemma v6_print_parse_full ws :
+  length ws = 8%nat -> Forall (fun w => w < 65536) ws ->
   parse_v6 (print_v6 true ws) = Some ws /\ parse_v6 (print_v6 false ws) = Some ws.
 Proof.
-  intros H. pose proof (proj1 (forallb_forall _ _) v6_sweep ws H) as Hc.
-  unfold v6_roundtrip_check in Hc.
-  destruct (parse_v6 (print_v6 true ws)) as [a|]; [|discriminate].
-  destruct (parse_v6 (print_v6 false ws)) as [b|]; [|discriminate].
-  apply andb_true_iff in Hc. destruct Hc as [H1 H2]. unfold nlist_eqb in *.
-  destruct (list_eq_dec N.eq_dec a ws); [|discriminate].
-  destruct (list_eq_dec N.eq_dec b ws); [|discriminate]. subst. split; reflexivity.
+  intros Hl Hw.
+  assert (P : forall e, parse_v6 (print_v6 e ws) = Some ws).
+  { intros e. rewrite print_v6_shape.
+    destruct (list8 ws Hl) as (a & b & c & d & e' & f & g & h & Ews).
+    pose proof (shape_ok8 e a b c d e' f g h) as [Hp Hv]. rewrite <- Ews in Hp, Hv.
+    rewrite parse_v6_parts.
+    - exact Hp.
+    - apply shape_nonnil. rewrite Ews. discriminate.
+    - apply shape_good. exact Hw.
+    - apply Forall_forall. intros p Hin.
+      rewrite forallb_forall in Hv. apply negb_true_iff. exact (Hv p Hin). }
+  split; apply P.
+Qed.
+
+(* ------------------------------------------------------------------ *)
+(* host:port through ipaddress / urlparse                              *)
+
+(* the characters of a text are separators or belong to one of its fields *)
+Lemma split_on_chars (P : ascii -> bool) c s :
+  Forall (fun t => forallb P t = true) (split_on c s) ->
+  forall x, In x s -> x = c \/ P x = true.
+Proof.
+  induction s as [|k s IH]; intros HF x Hx; [destruct Hx|].
+  cbn [split_on] in HF. destruct (Ascii.eqb k c) eqn:E.
+  - apply Ascii.eqb_eq in E. subst k. inversion HF as [|? ? _ HF']; subst.
+    destruct Hx as [<-|Hx]; [left; reflexivity|exact (IH HF' x Hx)].
+  - destruct (split_on c s) as [|h r] eqn:Es.
+    + inversion HF as [|? ? Hk _]; subst. cbn [forallb] in Hk. apply andb_true_iff in Hk.
+      destruct Hx as [<-|Hx]; [right; exact (proj1 Hk)|].
+      apply IH; [constructor|exact Hx].
+    + inversion HF as [|? ? Hk HF']; subst. cbn [forallb] in Hk. apply andb_true_iff in Hk.
+      destruct Hx as [<-|Hx]; [right; exact (proj1 Hk)|].
+      apply IH; [constructor; [exact (proj2 Hk)|exact HF']|exact Hx].
+Qed.
+
+Lemma mem_char_In c s : mem_char c s = true -> In c s.
+Proof.
+  unfold mem_char. intros H. apply existsb_exists in H. destruct H as (x & Hx & E).
+  apply Ascii.eqb_eq in E. subst. exact Hx.
+Qed.
+
+(* a dotted quad has no ':' *)
+Lemma parse_v4_strict_colon s : mem_char ":" s = true -> parse_v4_strict s = None.
+Proof.
+  intros Hm. destruct (parse_v4_strict s) as [v|] eqn:E; [exfalso|reflexivity].
+  unfold parse_v4_strict in E.
+  assert (HF : Forall (fun t => forallb is_digit t = true) (split_on "." s)).
+  { destruct (split_on "." s) as [|a [|b [|c [|d [|x l]]]]]; cbn [map] in E; try discriminate;
+      try (destruct (strict_octet a); discriminate).
+    - destruct (strict_octet a) eqn:Ea; [destruct (strict_octet b); discriminate|discriminate].
+    - destruct (strict_octet a) eqn:Ea; [|discriminate].
+      destruct (strict_octet b) eqn:Eb; [destruct (strict_octet c); discriminate|discriminate].
+    - destruct (strict_octet a) eqn:Ea; [|discriminate]. destruct (strict_octet b) eqn:Eb; [|discriminate].
+      destruct (strict_octet c) eqn:Ec; [|discriminate]. destruct (strict_octet d) eqn:Ed; [|discriminate].
+      repeat constructor; eapply strict_octet_digits; eassumption.
+    - destruct (strict_octet a); [|discriminate]. destruct (strict_octet b); [|discriminate].
+      destruct (strict_octet c); [|discriminate]. destruct (strict_octet d); [|discriminate].
+      destruct (strict_octet x); discriminate. }
+  destruct (split_on_chars is_digit "." s HF ":" (mem_char_In _ _ Hm)) as [H|H]; discriminate.
+Qed.
+
+Lemma forallb_impl {A} (P Q : A -> bool) l :
+  (forall x, P x = true -> Q x = true) -> forallb P l = true -> forallb Q l = true.
+Proof.
+  intros H HP. apply forallb_forall. intros x Hx. apply H.
+  exact (proj1 (forallb_forall P l) HP x Hx).
+Qed.
+
+Lemma filter_all {A} (P : A -> bool) l : forallb P l = true -> filter P l = l.
+Proof.
+  induction l as [|x l IH]; intros H; [reflexivity|].
+  cbn [forallb] in H. apply andb_true_iff in H. destruct H as [Hx Hl].
+  cbn [filter]. rewrite Hx, (IH Hl). reflexivity.
+Qed.
+
+(* the alphabet of  name:port  *)
+Definition is_hp (c : ascii) : bool := is_host4 c || Ascii.eqb c ":".
+
+Lemma is_hp_text h p : forallb is_host4 h = true -> forallb is_digit p = true ->
+  forallb is_hp (h ++ ":" :: p) = true.
+Proof.
+  intros Hh Hp. rewrite forallb_app. cbn [forallb].
+  rewrite (forallb_impl is_host4 is_hp h); [| |exact Hh].
+  2:{ intros x Hx. unfold is_hp. rewrite Hx. reflexivity. }
+  rewrite (forallb_impl is_digit is_hp p); [reflexivity| |exact Hp].
+  intros x Hx. unfold is_hp, is_host4, is_word. rewrite Hx. rewrite orb_true_r. reflexivity.
+Qed.
+
+Lemma host_part_name_port h p :
+  name4_ok h = true -> digits_ok p = true -> short p = true -> dec_val p <= 65535 ->
+  host_part (h ++ ":" :: p) =
+  Ok (Some (dec_val p),
+      Some (match py_ip_str (map to_lower h) with Some c => c | None => map to_lower h end)).
+Proof.
+  intros Hh Hp Hs Hv.
+  destruct (name4_inv h Hh) as [Hn Ha]. destruct (digits_ok_inv p Hp) as [Hnp Hap].
+  pose proof (is_hp_text h p Ha Hap) as Hall.
+  set (s := h ++ ":" :: p) in *.
+  assert (Hcolon : mem_char ":" s = true).
+  { unfold s. rewrite mem_char_app. cbn [mem_char existsb]. rewrite Ascii.eqb_refl.
+    cbn [orb]. apply orb_true_r. }
+  assert (L : forall c, is_hp c = false -> lacks c s = true)
+    by (intros c Hc; exact (class_lacks is_hp c s Hc Hall)).
+  assert (Lh : forall c, is_host4 c = false -> lacks c h = true)
+    by (intros c Hc; exact (class_lacks is_host4 c h Hc Ha)).
+  (* ipaddress.ip_address(host) fails: not a dotted quad, not IPv6 *)
+  assert (Hip : py_ip_str s = None).
+  { unfold py_ip_str. rewrite (parse_v4_strict_colon s Hcolon).
+    unfold py_ip6_str. rewrite (partition_on_lacks "%" s (L "%" eq_refl)).
+    rewrite (lacks_mem "/" s (L "/" eq_refl)). cbn [andb].
+    unfold parse_v6, s. rewrite (split_on_app_sep ":" h p (Lh ":" eq_refl)).
+    rewrite (split_on_lacks ":" p (class_lacks is_digit ":" p eq_refl Hap)). reflexivity. }
+  (* urlparse('//' + host) *)
+  assert (Hurl : url_hostinfo s = Ok (Some (map to_lower h), Some p)).
+  { unfold url_hostinfo.
+    rewrite (filter_all (fun c => negb (is_url_strip c)) s).
+    2:{ apply (forallb_impl is_hp); [|exact Hall]. intros x Hx. unfold is_url_strip.
+        rewrite (class_not_char is_hp "009" x eq_refl Hx), (class_not_char is_hp "010" x eq_refl Hx),
+                (class_not_char is_hp "013" x eq_refl Hx). reflexivity. }
+    rewrite (span_all (fun c => negb (is_netloc_end c)) s).
+    2:{ apply (forallb_impl is_hp); [|exact Hall]. intros x Hx. unfold is_netloc_end.
+        rewrite (class_not_char is_hp "/" x eq_refl Hx), (class_not_char is_hp "?" x eq_refl Hx),
+                (class_not_char is_hp "#" x eq_refl Hx). reflexivity. }
+    cbn [fst].
+    rewrite (lacks_mem "[" s (L "[" eq_refl)), (lacks_mem "]" s (L "]" eq_refl)). cbn [xorb andb].
+    rewrite (partition_on_lacks "[" s (L "[" eq_refl)).
+    unfold s. rewrite (partition_on_app ":" h p (Lh ":" eq_refl)).
+    rewrite Hn, Hnp. rewrite (partition_on_lacks "%" h (Lh "%" eq_refl)).
+    rewrite app_nil_r. reflexivity. }
+  unfold host_part. rewrite Hcolon, Hip, Hurl.
+  unfold url_port. rewrite Hap. rewrite (py_int_short p Hs).
+  destruct (dec_val p <=? 65535) eqn:E; [|lia].
+  destruct (py_ip_str (map to_lower h)); reflexivity.
+Qed.
+
+(* ------------------------------------------------------------------ *)
+(* the reader's range: eight words below 65536, for EVERY text         *)
+
+Lemma hex_digit_val_lt c : is_hex c = true -> hex_digit_val c < 16.
+Proof.
+  unfold is_hex, hex_digit_val, is_digit, in_range. intros H.
+  destruct ((48 <=? cN c) && (cN c <=? 57)) eqn:E1; [lia|].
+  destruct ((65 <=? cN c) && (cN c <=? 70)) eqn:E2; [lia|].
+  cbn [orb] in H. lia.
+Qed.
+
+Lemma hextet_range p n : hextet p = HVal n -> n < 65536.
+Proof.
+  unfold hextet. destruct p as [|a p]; [discriminate|].
+  destruct (forallb is_hex (a :: p) && (lenN (a :: p) <=? 4)) eqn:E; [|discriminate].
+  apply andb_true_iff in E. destruct E as [Hh Hl]. intros [= <-].
+  assert (D : forall c, In c (a :: p) -> hex_digit_val c < 16).
+  { intros c Hc. apply hex_digit_val_lt. exact (proj1 (forallb_forall _ _) Hh c Hc). }
+  unfold hex_val.
+  destruct p as [|b [|c [|d [|e p]]]].
+  - pose proof (D a (or_introl eq_refl)). cbn [horner]. lia.
+  - pose proof (D a (or_introl eq_refl)). pose proof (D b (or_intror (or_introl eq_refl))).
+    cbn [horner]. lia.
+  - pose proof (D a (or_introl eq_refl)). pose proof (D b (or_intror (or_introl eq_refl))).
+    pose proof (D c (or_intror (or_intror (or_introl eq_refl)))). cbn [horner]. lia.
+  - pose proof (D a (or_introl eq_refl)). pose proof (D b (or_intror (or_introl eq_refl))).
+    pose proof (D c (or_intror (or_intror (or_introl eq_refl)))).
+    pose proof (D d (or_intror (or_intror (or_intror (or_introl eq_refl))))). cbn [horner]. lia.
+  - rewrite !lenN_cons in Hl. lia.
+Qed.
+
+Definition hx_small (x : hx) : Prop := match x with HVal n => n < 65536 | _ => True end.
+
+Lemma hextets_small ps : Forall hx_small (map hextet ps).
+Proof.
+  apply Forall_map. apply Forall_forall. intros p _. unfold hx_small.
+  destruct (hextet p) as [|n|] eqn:E; [exact I| |exact I]. exact (hextet_range p n E).
+Qed.
+
+Lemma vals_of_range l r : vals_of l = Some r -> Forall hx_small l ->
+  length r = length l /\ Forall (fun w => w < 65536) r.
+Proof.
+  revert r. induction l as [|x l IH]; intros r H HF.
+  - cbn [vals_of] in H. injection H as <-. split; [reflexivity|constructor].
+  - cbn [vals_of] in H. destruct x as [|n|]; try discriminate.
+    destruct (vals_of l) as [r'|] eqn:E; [|discriminate]. injection H as <-.
+    inversion HF as [|? ? Hx HF']; subst. destruct (IH r' eq_refl HF') as [A B].
+    split; [cbn [length]; rewrite A; reflexivity|constructor; assumption].
+Qed.
+
+Lemma split_empty_spec l a b : split_empty l = Some (a, b) -> l = a ++ HEmpty :: b.
+Proof.
+  revert a b. induction l as [|x l IH]; intros a b H; [discriminate|].
+  cbn [split_empty] in H.
+  destruct x as [|n|].
+  - injection H as <- <-. reflexivity.
+  - destruct (split_empty l) as [[a' b']|]; [|discriminate]. injection H as <- <-.
+    rewrite (IH a' b' eq_refl). reflexivity.
+  - destruct (split_empty l) as [[a' b']|]; [|discriminate]. injection H as <- <-.
+    rewrite (IH a' b' eq_refl). reflexivity.
+Qed.
+
+Lemma Forall_repeat0 k : Forall (fun w => w < 65536) (repeat 0 k).
+Proof. induction k; cbn [repeat]; constructor; [lia|assumption]. Qed.
+
+Lemma assemble_v6_range items r : assemble_v6 items = Some r -> Forall hx_small items ->
+  length r = 8%nat /\ Forall (fun w => w < 65536) r.
+Proof.
+  unfold assemble_v6. destruct items as [|a rest]; [discriminate|].
+  destruct (rev rest) as [|z rmid] eqn:Er; [discriminate|].
+  assert (Erest : rest = rev rmid ++ [z]).
+  { rewrite <- (rev_involutive rest), Er. reflexivity. }
+  intros H HF. pose proof (Forall_inv HF) as Ha. pose proof (Forall_inv_tail HF) as HFr.
+  rewrite Erest in HFr. apply Forall_app in HFr. destruct HFr as [HFm HFz].
+  destruct (split_empty (rev rmid)) as [[pre post]|] eqn:Es.
+  - apply split_empty_spec in Es. rewrite Es in HFm.
+    apply Forall_app in HFm. destruct HFm as [HFpre HFpost]. apply Forall_inv_tail in HFpost.
+    destruct (existsb is_hempty post); [discriminate|].
+    set (hi := if is_hempty a then (if nonempty_hx pre then None else Some []) else vals_of (a :: pre)) in H.
+    set (lo := if is_hempty z then (if nonempty_hx post then None else Some []) else vals_of (post ++ [z])) in H.
+    assert (Hhi : forall h, hi = Some h -> Forall (fun w => w < 65536) h).
+    { intros h Eh. unfold hi in Eh. destruct (is_hempty a).
+      - destruct (nonempty_hx pre); [discriminate|]. injection Eh as <-. constructor.
+      - apply (vals_of_range _ _ Eh). constructor; assumption. }
+    assert (Hlo : forall l, lo = Some l -> Forall (fun w => w < 65536) l).
+    { intros l El. unfold lo in El. destruct (is_hempty z).
+      - destruct (nonempty_hx post); [discriminate|]. injection El as <-. constructor.
+      - apply (vals_of_range _ _ El). apply Forall_app. split; assumption. }
+    destruct hi as [h|]; [|discriminate]. destruct lo as [l|]; [|discriminate].
+    destruct (Nat.ltb (length h + length l) 8) eqn:El; [|discriminate].
+    apply Nat.ltb_lt in El.
+    pose proof (f_equal (fun o => match o with Some x => x | None => r end) H) as Hr.
+    cbv beta iota in Hr. subst r. clear H. split.
+    + rewrite !app_length, repeat_length. lia.
+    + apply Forall_app. split; [exact (Hhi h eq_refl)|].
+      apply Forall_app. split; [apply Forall_repeat0|exact (Hlo l eq_refl)].
+  - destruct (Nat.eqb (length (a :: rest)) 8) eqn:E8; [|discriminate].
+    apply Nat.eqb_eq in E8.
+    assert (HFi : Forall hx_small (a :: rest)).
+    { constructor; [exact Ha|]. rewrite Erest. apply Forall_app. split; assumption. }
+    destruct (vals_of_range _ _ H HFi) as [A B]. split; [rewrite A; exact E8|exact B].
+Qed.
+
+Lemma strict_octet_range p v : strict_octet p = Some v -> v <= 255.
+Proof.
+  unfold strict_octet. destruct (nonempty p && forallb is_digit p && (lenN p <=? 3)); [|discriminate].
+  destruct (match p with c :: _ :: _ => Ascii.eqb c "0" | _ => false end); [discriminate|].
+  destruct (dec_val p <=? 255) eqn:E; [|discriminate]. intros [= <-]. lia.
+Qed.
+
+Lemma parse_v4_strict_range s v : parse_v4_strict s = Some v -> v < 4294967296.
+Proof.
+  unfold parse_v4_strict.
+  destruct (split_on "." s) as [|a [|b [|c [|d [|x l]]]]]; cbn [map]; try discriminate;
+    try (destruct (strict_octet a); discriminate).
+  - destruct (strict_octet a); [destruct (strict_octet b); discriminate|discriminate].
+  - destruct (strict_octet a); [|discriminate].
+    destruct (strict_octet b); [destruct (strict_octet c); discriminate|discriminate].
+  - destruct (strict_octet a) as [a'|] eqn:Ea; [|discriminate].
+    destruct (strict_octet b) as [b'|] eqn:Eb; [|discriminate].
+    destruct (strict_octet c) as [c'|] eqn:Ec; [|discriminate].
+    destruct (strict_octet d) as [d'|] eqn:Ed; [|discriminate].
+    apply strict_octet_range in Ea, Eb, Ec, Ed. intros [= <-]. lia.
+  - destruct (strict_octet a); [|discriminate]. destruct (strict_octet b); [|discriminate].
+    destruct (strict_octet c); [|discriminate]. destruct (strict_octet d); [|discriminate].
+    destruct (strict_octet x); discriminate.
+Qed.
+
+Lemma parse_v6_range s ws : parse_v6 s = Some ws ->
+  length ws = 8%nat /\ Forall (fun w => w < 65536) ws.
+Proof.
+  unfold parse_v6. destruct (Nat.ltb (length (split_on ":" s)) 3); [discriminate|].
+  destruct (mem_char "." (last (split_on ":" s) [])).
+  - destruct (parse_v4_strict (last (split_on ":" s) [])) as [v|] eqn:E4; [|discriminate].
+    apply parse_v4_strict_range in E4. intros H. apply (assemble_v6_range _ _ H).
+    apply Forall_app. split; [apply hextets_small|].
+    constructor; [cbn [hx_small]; lia|]. constructor; [cbn [hx_small]; lia|constructor].
+  - intros H. apply (assemble_v6_range _ _ H). apply hextets_small.
+Qed.
+
+(* ------------------------------------------------------------------ *)
+(* the alphabet of canonical IPv6 text: 0-9 a-f ':' '.'                 *)
+
+Definition is_v6ch (c : ascii) : bool :=
+  is_digit c || in_range 97 102 c || Ascii.eqb c ":" || Ascii.eqb c ".".
+
+Lemma hchar_v6ch d : d < 16 -> is_v6ch (hchar d) = true.
+Proof.
+  intros H. unfold is_v6ch, hchar, is_digit, in_range. destruct (d <? 10) eqn:E.
+  - rewrite cN_ascii by lia. replace ((48 <=? 48 + d) && (48 + d <=? 57)) with true by lia. reflexivity.
+  - rewrite cN_ascii by lia. replace ((97 <=? 87 + d) && (87 + d <=? 102)) with true by lia.
+    rewrite orb_true_r. reflexivity.
+Qed.
+
+Lemma hex4_v6ch n : n < 65536 -> forallb is_v6ch (hex4 n) = true.
+Proof.
+  intros H. unfold hex4.
+  destruct (n <? 16) eqn:E1; [|destruct (n <? 256) eqn:E2; [|destruct (n <? 4096) eqn:E3]];
+    cbn [forallb]; rewrite ?hchar_v6ch by lia; reflexivity.
+Qed.
+
+Lemma digit_v6ch c : is_digit c = true -> is_v6ch c = true.
+Proof. intros H. unfold is_v6ch. rewrite H. reflexivity. Qed.
+
+Lemma print_v4_v6ch v : v < 4294967296 -> forallb is_v6ch (print_v4 v) = true.
+Proof.
+  intros H. destruct (v4_octet_bounds v H) as (Ha & Hb & Hc & Hd & _).
+  unfold print_v4. rewrite !forallb_app. cbn [forallb]. rewrite !forallb_app. cbn [forallb].
+  rewrite !forallb_app. cbn [forallb].
+  rewrite (forallb_impl is_digit is_v6ch _ digit_v6ch (dec3_digits _ Ha)),
+          (forallb_impl is_digit is_v6ch _ digit_v6ch (dec3_digits _ Hb)),
+          (forallb_impl is_digit is_v6ch _ digit_v6ch (dec3_digits _ Hc)),
+          (forallb_impl is_digit is_v6ch _ digit_v6ch (dec3_digits _ Hd)). reflexivity.
+Qed.
+
+Lemma vrender_v6ch p : vgood p -> forallb is_v6ch (vrender p) = true.
+Proof.
+  destruct p as [g| |hi lo]; cbn [vgood vrender]; intros H.
+  - exact (hex4_v6ch g H).
+  - reflexivity.
+  - apply print_v4_v6ch. lia.
+Qed.
+
+Lemma forallb_join (P : ascii -> bool) c ts :
+  P c = true -> Forall (fun t => forallb P t = true) ts -> forallb P (join [c] ts) = true.
+Proof.
+  intros Hc. induction ts as [|a ts IH]; intros HF; [reflexivity|].
+  inversion HF as [|? ? Ha Hts]; subst.
+  destruct ts as [|b ts]; [exact Ha|].
+  change (join [c] (a :: b :: ts)) with (a ++ [c] ++ join [c] (b :: ts)).
+  rewrite !forallb_app. cbn [forallb]. rewrite Ha, Hc, (IH Hts). reflexivity.
+Qed.
+
+Lemma print_v6_v6ch e ws : Forall (fun w => w < 65536) ws -> forallb is_v6ch (print_v6 e ws) = true.
+Proof.
+  intros H. rewrite print_v6_shape. unfold COLON. apply forallb_join; [reflexivity|].
+  apply Forall_map. eapply Forall_impl; [|exact (shape_good e ws H)]. exact vrender_v6ch.
+Qed.
+
+Lemma v6ch_lower c : is_v6ch c = true -> to_lower c = c.
+Proof.
+  intros H. unfold to_lower. replace (is_upper c) with false; [reflexivity|].
+  symmetry. unfold is_v6ch in H.
+  destruct (Ascii.eqb c ":") eqn:E1; [apply Ascii.eqb_eq in E1; subst; reflexivity|].
+  destruct (Ascii.eqb c ".") eqn:E2; [apply Ascii.eqb_eq in E2; subst; reflexivity|].
+  unfold is_digit, in_range in H. unfold is_upper, in_range. lia.
+Qed.
+
+Lemma map_lower_v6ch t : forallb is_v6ch t = true -> map to_lower t = t.
+Proof.
+  induction t as [|c t IH]; intros H; [reflexivity|].
+  cbn [forallb] in H. apply andb_true_iff in H. destruct H as [Hc Ht].
+  cbn [map]. rewrite (v6ch_lower c Hc), (IH Ht). reflexivity.
+Qed.
+
+(* ------------------------------------------------------------------ *)
+(* ipaddress.ip_address on IPv6 text; parse_hostport on IPv6 hosts     *)
+
+Lemma mem_lacks c l : mem_char c l = false -> lacks c l = true.
+Proof.
+  induction l as [|x l IH]; intros H; [reflexivity|].
+  cbn [mem_char existsb] in H. apply orb_false_iff in H. destruct H as [Hx Hl].
+  rewrite lacks_cons. rewrite Ascii.eqb_sym, Hx. exact (IH Hl).
+Qed.
+
+Lemma parse_v6_has_colon t ws : parse_v6 t = Some ws -> mem_char ":" t = true.
+Proof.
+  intros H. destruct (mem_char ":" t) eqn:E; [reflexivity|].
+  unfold parse_v6 in H. rewrite (split_on_lacks ":" t (mem_lacks _ _ E)) in H. discriminate.
+Qed.
+
+Lemma py_ip_str_v6 t ws : forallb is_v6ch t = true -> parse_v6 t = Some ws ->
+  py_ip_str t = Some (print_v6 false ws).
+Proof.
+  intros Hc Hp. unfold py_ip_str.
+  rewrite (parse_v4_strict_colon t (parse_v6_has_colon t ws Hp)).
+  unfold py_ip6_str. rewrite (partition_on_lacks "%" t (class_lacks is_v6ch "%" t eq_refl Hc)).
+  rewrite (lacks_mem "/" t (class_lacks is_v6ch "/" t eq_refl Hc)). cbn [andb].
+  rewrite Hp. rewrite app_nil_r. reflexivity.
+Qed.
+
+(* an IPv6 literal given as the remote host (no port): Python's canonical text *)
+Lemma host_part_v6 t ws : forallb is_v6ch t = true -> parse_v6 t = Some ws ->
+  host_part t = Ok (None, Some (print_v6 false ws)).
+Proof.
+  intros Hc Hp. unfold host_part. rewrite (parse_v6_has_colon t ws Hp).
+  rewrite (py_ip_str_v6 t ws Hc Hp). reflexivity.
+Qed.
+
+Lemma split_on_head c x s : Ascii.eqb x c = false ->
+  exists h r, split_on c (x :: s) = (x :: h) :: r.
+Proof.
+  intros H. cbn [split_on]. rewrite H. destruct (split_on c s) as [|h r].
+  - exists [], []. reflexivity.
+  - exists h, r. reflexivity.
+Qed.
+
+Lemma assemble_v6_bad l : assemble_v6 (HBad :: l) = None.
+Proof.
+  unfold assemble_v6. destruct (rev l) as [|z rmid]; [reflexivity|].
+  destruct (split_empty (rev rmid)) as [[pre post]|].
+  - destruct (existsb is_hempty post); [reflexivity|]. cbn [is_hempty vals_of]. reflexivity.
+  - destruct (Nat.eqb _ _); reflexivity.
+Qed.
+
+(* the alphabet of  [v6]:port *)
+Definition is_bk (c : ascii) : bool := is_v6ch c || Ascii.eqb c "[" || Ascii.eqb c "]".
+
+Lemma v6ch_bk c : is_v6ch c = true -> is_bk c = true.
+Proof. intros H. unfold is_bk. rewrite H. reflexivity. Qed.
+
+Lemma host_part_bracket_port t ws p :
+  forallb is_v6ch t = true -> parse_v6 t = Some ws ->
+  digits_ok p = true -> short p = true -> dec_val p <= 65535 ->
+  host_part ("[" :: t ++ "]" :: ":" :: p) = Ok (Some (dec_val p), Some (print_v6 false ws)).
+Proof.
+  intros Hc Hp6 Hp Hs Hv. destruct (digits_ok_inv p Hp) as [Hnp Hap].
+  pose proof (parse_v6_has_colon t ws Hp6) as Hct.
+  assert (Hnt : nonempty t = true) by (destruct t; [discriminate|reflexivity]).
+  set (s := "[" :: t ++ "]" :: ":" :: p).
+  assert (Hall : forallb is_bk s = true).
+  { unfold s. cbn [forallb]. rewrite forallb_app. cbn [forallb].
+    rewrite (forallb_impl is_v6ch is_bk t v6ch_bk Hc).
+    rewrite (forallb_impl is_digit is_bk p (fun c H => v6ch_bk c (digit_v6ch c H)) Hap). reflexivity. }
+  assert (L : forall c, is_bk c = false -> lacks c s = true)
+    by (intros c Hc'; exact (class_lacks is_bk c s Hc' Hall)).
+  assert (Lt : forall c, is_v6ch c = false -> lacks c t = true)
+    by (intros c Hc'; exact (class_lacks is_v6ch c t Hc' Hc)).
+  assert (Hcolon : mem_char ":" s = true).
+  { unfold s. cbn [mem_char existsb]. change (Ascii.eqb ":" "[") with false. cbn [orb].
+    fold (mem_char ":" (t ++ "]" :: ":" :: p)). rewrite mem_char_app, Hct. reflexivity. }
+  assert (Hip : py_ip_str s = None).
+  { unfold py_ip_str. rewrite (parse_v4_strict_colon s Hcolon).
+    unfold py_ip6_str. rewrite (partition_on_lacks "%" s (L "%" eq_refl)).
+    rewrite (lacks_mem "/" s (L "/" eq_refl)). cbn [andb].
+    replace (parse_v6 s) with (@None (list N)); [reflexivity|]. symmetry.
+    unfold parse_v6, s.
+    destruct (split_on_head ":" "[" (t ++ "]" :: ":" :: p) eq_refl) as (h & r & ->).
+    destruct (Nat.ltb (length _) 3); [reflexivity|].
+    assert (Hhb : hextet ("[" :: h) = HBad) by reflexivity.
+    destruct (mem_char "." _).
+    - destruct (parse_v4_strict _); [|reflexivity].
+      destruct r as [|r1 r]; [reflexivity|].
+      change (removelast (("[" :: h) :: r1 :: r)) with (("[" :: h) :: removelast (r1 :: r)).
+      cbn [map app]. rewrite Hhb. apply assemble_v6_bad.
+    - cbn [map]. rewrite Hhb. apply assemble_v6_bad. }
+  assert (Hurl : url_hostinfo s = Ok (Some t, Some p)).
+  { unfold url_hostinfo.
+    rewrite (filter_all (fun c => negb (is_url_strip c)) s).
+    2:{ apply (forallb_impl is_bk); [|exact Hall]. intros x Hx. unfold is_url_strip.
+        rewrite (class_not_char is_bk "009" x eq_refl Hx), (class_not_char is_bk "010" x eq_refl Hx),
+                (class_not_char is_bk "013" x eq_refl Hx). reflexivity. }
+    rewrite (span_all (fun c => negb (is_netloc_end c)) s).
+    2:{ apply (forallb_impl is_bk); [|exact Hall]. intros x Hx. unfold is_netloc_end.
+        rewrite (class_not_char is_bk "/" x eq_refl Hx), (class_not_char is_bk "?" x eq_refl Hx),
+                (class_not_char is_bk "#" x eq_refl Hx). reflexivity. }
+    cbn [fst].
+    assert (Hl : mem_char "[" s = true) by reflexivity.
+    assert (Hr : mem_char "]" s = true).
+    { unfold s. cbn [mem_char existsb]. change (Ascii.eqb "]" "[") with false. cbn [orb].
+      fold (mem_char "]" (t ++ "]" :: ":" :: p)). rewrite mem_char_app.
+      cbn [mem_char existsb]. rewrite Ascii.eqb_refl. cbn [orb]. apply orb_true_r. }
+    rewrite Hl, Hr. cbn [xorb andb].
+    assert (P1 : partition_on "[" s = ([], true, t ++ "]" :: ":" :: p)) by reflexivity.
+    assert (P3 : partition_on ":" (":" :: p) = ([], true, p)) by reflexivity.
+    rewrite P1. rewrite (partition_on_app "]" t (":" :: p) (Lt "]" eq_refl)). rewrite P3.
+    assert (Hbr : bracketed_host_ok t = true).
+    { unfold bracketed_host_ok.
+      rewrite <- (app_nil_r t) at 1. rewrite (strip_char_class is_v6ch "v" t [] eq_refl Hnt Hc).
+      rewrite (parse_v4_strict_colon t Hct).
+      pose proof (py_ip_str_v6 t ws Hc Hp6) as Hpy. unfold py_ip_str in Hpy.
+      rewrite (parse_v4_strict_colon t Hct) in Hpy. rewrite Hpy. reflexivity. }
+    rewrite Hbr. cbn [negb]. rewrite Hnt, Hnp.
+    rewrite (partition_on_lacks "%" t (Lt "%" eq_refl)). rewrite app_nil_r.
+    rewrite (map_lower_v6ch t Hc). reflexivity. }
+  unfold host_part. rewrite Hcolon, Hip, Hurl. rewrite (py_ip_str_v6 t ws Hc Hp6).
+  unfold url_port. rewrite Hap. rewrite (py_int_short p Hs).
+  destruct (dec_val p <=? 65535) eqn:E; [reflexivity|lia].
+Qed.
+
+(* ------------------------------------------------------------------ *)
+(* the resolver on IPv6 literals: canonical text, fixed point          *)
+
+(* numbers-and-dots text has no ':' *)
+Definition is_cnum (c : ascii) : bool := is_hex c || Ascii.eqb c "x" || Ascii.eqb c "X".
+
+Lemma hex_cnum c : is_hex c = true -> is_cnum c = true.
+Proof. intros H. unfold is_cnum. rewrite H. reflexivity. Qed.
+
+Lemma digit_hex c : is_digit c = true -> is_hex c = true.
+Proof. intros H. unfold is_hex. rewrite H. reflexivity. Qed.
+
+Lemma oct_hex c : is_oct c = true -> is_hex c = true.
+Proof.
+  intros H. apply digit_hex. unfold is_oct, is_digit, in_range in *. lia.
+Qed.
+
+Lemma c_number_chars p v : c_number p = Some v -> forallb is_cnum p = true.
+Proof.
+  unfold c_number. destruct p as [|c t]; [discriminate|].
+  destruct (Ascii.eqb c "0") eqn:E0.
+  - apply Ascii.eqb_eq in E0. subst c. destruct t as [|x t']; [reflexivity|].
+    destruct (Ascii.eqb x "x" || Ascii.eqb x "X") eqn:Ex.
+    + destruct (nonempty t' && forallb is_hex t') eqn:Eh; [|discriminate]. intros _.
+      apply andb_true_iff in Eh. destruct Eh as [_ Eh].
+      cbn [forallb]. rewrite (forallb_impl is_hex is_cnum t' hex_cnum Eh).
+      unfold is_cnum at 2. rewrite <- orb_assoc, Ex, orb_true_r. reflexivity.
+    + destruct (forallb is_oct (x :: t')) eqn:Eo; [|discriminate]. intros _.
+      change (is_cnum "0" && forallb is_cnum (x :: t') = true).
+      rewrite (forallb_impl is_oct is_cnum (x :: t') (fun k H => hex_cnum k (oct_hex k H)) Eo).
+      reflexivity.
+  - destruct (forallb is_digit (c :: t)) eqn:Ed; [|discriminate]. intros _.
+    exact (forallb_impl is_digit is_cnum (c :: t) (fun k H => hex_cnum k (digit_hex k H)) Ed).
+Qed.
+
+Lemma inet_aton_colon s : mem_char ":" s = true -> inet_aton s = None.
+Proof.
+  intros Hm. destruct (inet_aton s) as [v|] eqn:E; [exfalso|reflexivity].
+  unfold inet_aton in E.
+  assert (HF : Forall (fun t => forallb is_cnum t = true) (split_on "." s)).
+  { destruct (split_on "." s) as [|a [|b [|c [|d [|x l]]]]]; cbn [map] in E; try discriminate.
+    - destruct (c_number a) eqn:Ea; [|discriminate].
+      repeat constructor; eapply c_number_chars; eassumption.
+    - destruct (c_number a) eqn:Ea; [|discriminate]. destruct (c_number b) eqn:Eb; [|discriminate].
+      repeat constructor; eapply c_number_chars; eassumption.
+    - destruct (c_number a) eqn:Ea; [|discriminate]. destruct (c_number b) eqn:Eb; [|discriminate].
+      destruct (c_number c) eqn:Ec; [|discriminate].
+      repeat constructor; eapply c_number_chars; eassumption.
+    - destruct (c_number a) eqn:Ea; [|discriminate]. destruct (c_number b) eqn:Eb; [|discriminate].
+      destruct (c_number c) eqn:Ec; [|discriminate]. destruct (c_number d) eqn:Ed; [|discriminate].
+      repeat constructor; eapply c_number_chars; eassumption.
+    - destruct (c_number a); [|discriminate]. destruct (c_number b); [|discriminate].
+      destruct (c_number c); [|discriminate]. destruct (c_number d); [|discriminate].
+      destruct (c_number x); discriminate. }
+  destruct (split_on_chars is_cnum "." s HF ":" (mem_char_In _ _ Hm)) as [H|H]; discriminate.
+Qed.
+
+Lemma getaddrinfo_v6 rs s ws :
+  parse_v6 s = Some ws -> idna_labels_ok (split_on "." s) = true ->
+  getaddrinfo rs s = Ok [(AF_INET6, print_v6 true ws)].
+Proof.
+  intros Hp Hi. unfold getaddrinfo. rewrite Hi. cbn [negb].
+  rewrite (inet_aton_colon s (parse_v6_has_colon s ws Hp)), Hp. reflexivity.
+Qed.
+
+(* lengths *)
+Lemma hex4_len n : lenN (hex4 n) <= 4.
+Proof.
+  unfold hex4. destruct (n <? 16); [|destruct (n <? 256); [|destruct (n <? 4096)]];
+    rewrite ?lenN_cons, lenN_nil; lia.
+Qed.
+
+Lemma join_hex4_len l : lenN (join COLON (map hex4 l)) <= 5 * N.of_nat (length l).
+Proof.
+  induction l as [|x l IH]; [cbn; lia|].
+  destruct l as [|y l].
+  - cbn [map join length]. pose proof (hex4_len x). lia.
+  - change (join COLON (map hex4 (x :: y :: l))) with (hex4 x ++ COLON ++ join COLON (map hex4 (y :: l))).
+    rewrite !lenN_app. unfold COLON at 1. rewrite lenN_cons, lenN_nil.
+    pose proof (hex4_len x). change (length (x :: y :: l)) with (S (length (y :: l))). lia.
+Qed.
+
+Lemma join_hex4_lacks_dot l : Forall (fun w => w < 65536) l -> lacks "." (join COLON (map hex4 l)) = true.
+Proof.
+  intros H. unfold lacks, COLON. apply forallb_join; [reflexivity|].
+  apply Forall_map. eapply Forall_impl; [|exact H]. intros w Hw. exact (hex4_lacks "." w eq_refl Hw).
+Qed.
+
+Lemma dec3_small n : n < 256 -> nonempty (dec3 n) = true /\ lenN (dec3 n) <= 3.
+Proof.
+  intros H. destruct (octet_facts n H) as (_ & S & _). unfold strict_octet in S.
+  destruct (nonempty (dec3 n)); [|discriminate]. destruct (forallb is_digit (dec3 n)); [|discriminate].
+  cbn [andb] in S. destruct (lenN (dec3 n) <=? 3) eqn:E; [|discriminate]. split; [reflexivity|lia].
+Qed.
+
+Lemma idna_print_v6 ws : length ws = 8%nat -> Forall (fun w => w < 65536) ws ->
+  idna_labels_ok (split_on "." (print_v6 true ws)) = true.
+Proof.
+  intros Hl Hw. unfold print_v6.
+  assert (Plain : forall a b : list N, Forall (fun w => w < 65536) a -> Forall (fun w => w < 65536) b ->
+            (length a + length b <= 8)%nat ->
+            idna_labels_ok (split_on "." (join COLON (map hex4 a) ++ ":" :: ":" :: join COLON (map hex4 b))) = true).
+  { intros a b Ha Hb Hlen.
+    rewrite split_on_lacks.
+    - cbn [idna_labels_ok]. rewrite lenN_app, !lenN_cons.
+      pose proof (join_hex4_len a). pose proof (join_hex4_len b). lia.
+    - rewrite lacks_app, !lacks_cons, (join_hex4_lacks_dot a Ha), (join_hex4_lacks_dot b Hb). reflexivity. }
+  destruct (best_run ws) as [[b l]|].
+  - destruct (true && Nat.eqb b 0 && (Nat.eqb l 6 || Nat.eqb l 5 && (nth 5 ws 0 =? 65535))).
+    + pose proof (nth_word_lt ws 6 Hw) as H6. pose proof (nth_word_lt ws 7 Hw) as H7.
+      set (v := nth 6 ws 0 * 65536 + nth 7 ws 0). assert (Hv : v < 4294967296) by (unfold v; lia).
+      destruct (v4_octet_bounds v Hv) as (Ha & Hb & Hc & Hd & _).
+      destruct (dec3_small _ Ha) as [Na La]. destruct (dec3_small _ Hb) as [Nb Lb].
+      destruct (dec3_small _ Hc) as [Nc Lc]. destruct (dec3_small _ Hd) as [Nd Ld].
+      destruct (octet_facts _ Ha) as (_ & _ & Da & _). destruct (octet_facts _ Hb) as (_ & _ & Db & _).
+      destruct (octet_facts _ Hc) as (_ & _ & Dc & _). destruct (octet_facts _ Hd) as (_ & _ & Dd & _).
+      set (pre := ":" :: ":" :: (if Nat.eqb l 5 then ["f"; "f"; "f"; "f"; ":"] else [])).
+      assert (Hpre : lacks "." pre = true /\ lenN pre <= 7).
+      { unfold pre. destruct (Nat.eqb l 5); split; try reflexivity; rewrite ?lenN_cons, lenN_nil; lia. }
+      destruct Hpre as [Dp Lp].
+      assert (E : ":" :: ":" :: (if Nat.eqb l 5 then ["f"; "f"; "f"; "f"; ":"] else []) ++ print_v4 v =
+                  (pre ++ dec3 (v / 16777216)) ++ "." :: dec3 ((v / 65536) mod 256) ++ "." ::
+                  dec3 ((v / 256) mod 256) ++ "." :: dec3 (v mod 256)).
+      { unfold pre, print_v4. cbn [app]. rewrite <- app_assoc. reflexivity. }
+      rewrite E.
+      rewrite (split_on_app_sep "." (pre ++ dec3 (v / 16777216))) by (rewrite lacks_app, Dp, Da; reflexivity).
+      rewrite (split_on_app_sep "." _ _ Db), (split_on_app_sep "." _ _ Dc), (split_on_lacks "." _ Dd).
+      cbn [idna_labels_ok]. rewrite lenN_app.
+      assert (P : forall t, nonempty t = true -> 0 < lenN t).
+      { intros t Ht. destruct t; [discriminate|]. rewrite lenN_cons. lia. }
+      pose proof (P _ Na). pose proof (P _ Nb). pose proof (P _ Nc). lia.
+    + apply Plain; [apply Forall_firstn_, Hw|apply Forall_skipn_, Hw|].
+      rewrite firstn_length, skipn_length. lia.
+  - rewrite split_on_lacks by (apply join_hex4_lacks_dot, Hw).
+    cbn [idna_labels_ok]. pose proof (join_hex4_len ws). lia.
+Qed.
+
+Lemma v6_canonical s ws rs :
+  parse_v6 s = Some ws -> idna_labels_ok (split_on "." s) = true ->
+  getaddrinfo rs s = Ok [(AF_INET6, print_v6 true ws)] /\
+  length ws = 8%nat /\ Forall (fun w => w < 65536) ws /\
+  parse_v6 (print_v6 true ws) = Some ws /\
+  py_ip_str (print_v6 true ws) = Some (print_v6 false ws) /\
+  getaddrinfo rs (print_v6 true ws) = Ok [(AF_INET6, print_v6 true ws)].
+Proof.
+  intros Hp Hi. destruct (parse_v6_range s ws Hp) as [Hl Hw].
+  pose proof (proj1 (v6_print_parse_full ws Hl Hw)) as Hrt.
+  split; [exact (getaddrinfo_v6 rs s ws Hp Hi)|]. split; [exact Hl|]. split; [exact Hw|].
+  split; [exact Hrt|]. split; [exact (py_ip_str_v6 _ ws (print_v6_v6ch true ws Hw) Hrt)|].
+  exact (getaddrinfo_v6 rs _ ws Hrt (idna_print_v6 ws Hl Hw)).
 Qed.
 
 (* ------------------------------------------------------------------ *)
